@@ -4,7 +4,7 @@ import sockgen as G
 
 RULE = ("family slot: QObjectHandler as the server's root handler (real ServerPrivate::process wiring over SimTcp); registries <= 5 names "
         "(prefix pairs, empty name, re-registration) through the four registration forms plus non-existent / wrong-signature old-style "
-        "slots; whole-body flag; request paths; bodies 0..12 bytes (multi-KiB in thorough); body with head, split, byte-by-byte, all "
+        "slots; whole-body flag; request paths; bodies 0..12 bytes (multi-KiB in thorough); peer half-close / reset before the body is complete; body with head, split, byte-by-byte, all "
         "partitions of short bodies; the slot logs bytesAvailable() when invoked; non-trivial = distinct case")
 ASSUMPTIONS = ["request targets are in the C01 class"]
 TRUSTED = ["SimTcp stands in for TCP; the receiver object's slots only log"]
@@ -36,7 +36,16 @@ def cases(tier, seed, ctx=None):
         else:
             segs = rng.partition(stream)
         ops = [G.Construct] + [G.Feed(s) for s in segs] + [G.Turn]
-        if rng.chance(1, 4):
+        fin = rng.below(8)
+        if fin == 0 and len(segs) > 1:
+            # the client half-closes (or resets) while the body is still incomplete: nothing can follow
+            ks = [k for k in range(1, len(segs)) if sum(len(x) for x in segs[:k]) >= len(head)]      # after the complete head
+            if ks:
+                k = rng.choice(ks)
+                ops = [G.Construct] + [G.Feed(s) for s in segs[:k]] + [rng.choice([G.PeerFin, G.PeerFin, G.PeerDrop]), G.Turn, G.Turn]
+        elif fin == 1:
+            ops += [G.PeerFin, G.Turn]
+        if rng.chance(1, 4) and not any(o in (G.PeerFin, G.PeerDrop) for o in ops):
             ops.append(G.Feed(b"extra"))
         meta = [15, name, len(body) if with_cl else -1, len(head)]
         yield ("slot", [regs, ops, [ver, []], meta], "random")
